@@ -274,6 +274,43 @@ def names(u):
     return L
 
 
+def messages(u):
+    """C17: Request / Response objects from and to bytes, executed on symbolic bytes (by length class) and symbolic fields"""
+    import symtrans as st
+    from udsoncan import Request, Response
+    from udsoncan.BaseService import BaseService
+
+    # the NAME of a response code is an attribute nothing here observes (the lookup itself is translated in Fn_Names.v)
+    from udsoncan.ResponseCode import ResponseCode
+    if not getattr(ResponseCode, '_verif_standin', False):
+        real = ResponseCode.get_name.__func__
+        ResponseCode.get_name = classmethod(lambda cls, x: '<name>' if isinstance(x, st.SymInt) else real(cls, x))
+        ResponseCode._verif_standin = True
+
+    def sid_of(svc, resp=False):
+        return -1 if svc is None else svc.request_id()
+
+    def req_from(p):
+        r = Request.from_payload(p)
+        return [sid_of(r.service), opt(r.subfunction), bool(r.suppress_positive_response), ('obytes', r.data)]
+
+    def resp_from(p):
+        r = Response.from_payload(p)
+        return [sid_of(r.service), opt(r.code), bool(r.positive), bool(r.valid), bool(r.unexpected), ('bytes', r.data)]
+
+    def req_payload(sid, sub, spr, data, ov):
+        return Request(BaseService.from_request_id(sid), sub, spr, data).get_payload(ov)
+
+    def resp_payload(sid, code, data):
+        return Response(BaseService.from_request_id(sid), code, data).get_payload()
+    return [
+        dict(name='fn_request_from_payload', params=[('p', ('seq', 3, 0))], result='S', call=req_from),
+        dict(name='fn_response_from_payload', params=[('p', ('seq', 4, 0))], result='S', call=resp_from),
+        dict(name='fn_request_payload', params=[('sid', 'Z'), ('sub', 'Z'), ('spr', 'B'), ('data', 'Y'), ('ov', ('opt', 'B'))], result='Y', call=req_payload),
+        dict(name='fn_response_payload', params=[('sid', 'Z'), ('code', 'Z'), ('data', 'Y')], result='Y', call=resp_payload),
+    ]
+
+
 def pick(names):
     return lambda u: [sp for sp in helpers(u) if sp['name'] in names]
 
@@ -282,6 +319,7 @@ def pick(names):
 def files(u):
     # Fn_Names first: the groups about client methods replace the name lookups (used there for log lines only) by stand-ins
     return [('Fn_Names.v', 'udsoncan/BaseService.py (BaseSubfunction.get_name on every table), ResponseCode.py, common/dids.py, common/Routine.py, common/dtc.py', names),
+            ('Fn_Messages.v', 'udsoncan/Request.py, Response.py, BaseService.py (from_request_id, from_response_id)', messages),
             ('Fn_MemLoc.v', 'udsoncan/common/MemoryLocation.py, AddressAndLengthFormatIdentifier.py',
              pick(['fn_autosize_address', 'fn_autosize_memorysize', 'fn_alfid_byte', 'fn_addr_bytes', 'fn_size_bytes', 'fn_memloc_formats'])),
             ('Fn_Codecs.v', 'udsoncan/common/CommunicationType.py, DataFormatIdentifier.py, AddressAndLengthFormatIdentifier.py, Baudrate.py',
